@@ -29,6 +29,10 @@ const (
 	ok2Src = "package x\n\ntempl Ok2() {\n\t<div>two</div>\n}\n"
 	ok3Src = "package x\n\ntempl Ok3() {\n\t<i>three</i>\n}\n"
 	badSrc = "package x\n\ntempl Bad() {\n\t<div>\n}\n"
+	// several script handlers and css classes on one element, two elements: wherever the generator collects names
+	// in a set or map, the iteration order (made an explicit choice by the rewrite of generator/generator.go) must
+	// not reach the output
+	ok4Src = "package x\n\nscript ha() {\n\ta();\n}\n\nscript hb() {\n\tb();\n}\n\nscript hc() {\n\tc();\n}\n\ncss ca() {\n\tcolor: red;\n}\n\ncss cb() {\n\tcolor: blue;\n}\n\ntempl Ok4(s string) {\n\t<button class={ ca(), cb(), \"k\" } onclick={ ha() } onmouseover={ hb() } hx-on:click={ hc() } onfocus={ ha() }>{ s }</button>\n\t<a class={ cb(), ca() } onclick={ hc() } onblur={ hb() }>x</a>\n}\n"
 )
 
 var root string
@@ -284,6 +288,7 @@ func main() {
 	write("ok2.templ", ok2Src)
 	write("sub/ok3.templ", ok3Src)
 	write("bad.templ", badSrc)
+	write("ok4.templ", ok4Src)
 	ref := map[string]string{}
 	{
 		h := generatecmd.NewFSEventHandler(quiet, root, false, nil, false, false, func(name string, contents []byte) error {
@@ -291,7 +296,7 @@ func main() {
 			ref[rel] = string(contents)
 			return nil
 		}, false)
-		for _, f := range []string{"ok1.templ", "ok2.templ", "sub/ok3.templ"} {
+		for _, f := range []string{"ok1.templ", "ok2.templ", "sub/ok3.templ", "ok4.templ"} {
 			if _, err := h.HandleEvent(context.Background(), fsnotify.Event{Name: filepath.Join(root, f), Op: fsnotify.Create}); err != nil {
 				vlib.Fatal("sequential reference: %v", err)
 			}
@@ -301,6 +306,7 @@ func main() {
 		{"2 concurrent events: ok1.templ, ok2.templ", []string{"ok1.templ", "ok2.templ"}},
 		{"3 concurrent events: ok1.templ, bad.templ, sub/ok3.templ", []string{"ok1.templ", "bad.templ", "sub/ok3.templ"}},
 		{"the same file twice: ok1.templ, ok1.templ", []string{"ok1.templ", "ok1.templ"}},
+		{"1 event: ok4.templ (several script handlers and css classes per element; every map iteration order of the generator)", []string{"ok4.templ"}},
 	}
 	if rp := replayArg(); rp != "" {
 		rf := readReplay(rp)
